@@ -523,10 +523,31 @@ impl<'a> LineBreaker<'a> {
         ]);
         // TeX.2021.864
         let mut diffs: Diffs = Default::default();
+        // TeX.2021.869: the nodes that a discretionary replaces are passed over without being
+        // considered as breakpoints, and `prev_p` stays at the discretionary.
+        let mut replaced_remaining = 0_usize;
+        let mut prev_p = 0_usize;
         // This is the loop in TeX.2021.863
         for i in 0..=list.len() {
             let elem = list.get(i);
             use ds::Horizontal::*;
+            if let (true, Some(elem)) = (replaced_remaining > 0, elem) {
+                // TeX.2021.870
+                replaced_remaining -= 1;
+                diffs.width += match elem {
+                    Char(ds::Char { char, font }) | Ligature(ds::Ligature { char, font, .. }) => {
+                        font_repo.width(*char, *font).unwrap_or(Scaled::ZERO)
+                    }
+                    HBox(ds::HBox { width, .. })
+                    | VBox(ds::VBox { width, .. })
+                    | Rule(ds::Rule { width, .. })
+                    | Kern(ds::Kern { width, .. }) => *width,
+                    _ => Scaled::ZERO,
+                };
+                continue;
+            }
+            let prev = prev_p;
+            prev_p = i;
             let mut disc_width = Scaled::ZERO;
             // This switch is TeX.2021.866. In TeX, Knuth invokes `try_break` inline
             // at the relevant parts of the switch. We instead return the two arguments
@@ -560,6 +581,7 @@ impl<'a> LineBreaker<'a> {
                     }
                     Discretionary(discretionary) => {
                         // TeX.2021.869
+                        replaced_remaining = discretionary.replace_count as usize;
                         disc_width = discretionary
                             .pre_break
                             .iter()
@@ -595,7 +617,7 @@ impl<'a> LineBreaker<'a> {
                     }
                     Glue(glue) => {
                         // TeX.2021.868
-                        if auto_breaking && i > 0 && list[i - 1].precedes_break() {
+                        if auto_breaking && i > 0 && list[prev].precedes_break() {
                             // List of allowable line breaks in TeXBook chapter 14 p96:
                             // (a) at glue, provided that this glue is immediately preceded by
                             // a non-discardable item, and that it is not part of a math formula
